@@ -484,10 +484,8 @@ class MailboxSet(MailboxSetInterface[MailboxData]):
 
     async def list_subscribed(self) -> ListTree:
         async with Subscriptions.with_read(self._path) as subs:
-            subscribed = frozenset(subs.subscribed)
-        mailboxes = [name for name in self._layout.list_folders(self.delimiter)
-                     if name in subscribed]
-        return ListTree(self.delimiter).update('INBOX', *mailboxes)
+            subscribed = subs.subscribed
+        return ListTree(self.delimiter).update('INBOX', *subscribed)
 
     async def list_mailboxes(self) -> ListTree:
         mailboxes = self._layout.list_folders(self.delimiter)
